@@ -41,3 +41,28 @@ Example f5_fixed_keeps_certificate :
   option_map (fun r => (st_height r, c_round (st_msg r), c_signers (st_msg r)))
     (highest (store (run (init f) [f5_first; f5_second]))) = Some (10, 1, [1; 2; 3; 4]).
 Proof. vm_compute. reflexivity. Qed.
+
+(* The shape outside of which (c) is expected to hold for the code before the fix too: valid
+   certificates of one height all carry one round.  STATEMENT ONLY - not proved, because the tree now
+   carries the fix and Props/C15.v proves (c) in full for it.  It is the signature lib/props/c15.py
+   (matches_known) uses to recognise F5 on a tree without the fix: on such a tree every one of the
+   1121 violating histories of a quick run had certificates of two different rounds for the height
+   whose certificate was replaced. *)
+Definition certs (ops : list op) : list (N * N) :=
+  flat_map (fun o => match op_cert o with Some p => [p] | None => [] end) ops.
+
+Definition single_round (ops : list op) : Prop :=
+  forall h r1 r2, In (h, r1) (certs ops) -> In (h, r2) (certs ops) -> r1 = r2.
+
+Definition store_monotone_outside_F5_statement (f : cfg) : Prop :=
+  forall ops s o s' r, single_round (ops ++ [o]) ->
+  run (init f) ops = s -> step s o = (s', r) ->
+  match highest (store s) with
+  | None => True
+  | Some old => exists new, highest (store s') = Some new /\
+      ((st_height new = st_height old /\ st_msg new = st_msg old) \/ better old new)
+  end.
+
+(* the F5 witness is outside that shape *)
+Example f5_witness_has_two_rounds : ~ single_round [f5_first; f5_second].
+Proof. intros H. specialize (H 10 1 2). simpl in H. assert (1 = 2) by (apply H; auto). discriminate. Qed.
